@@ -232,11 +232,21 @@ def run_unary(ctx, pt):
             X[sel] = P_(a, k)
             return val(X)
         ctx.eq('C16/setitem/value-is-the-target-itself-differs-from-an-equal-copy', ctx.attempt(f_self), ctx.attempt(f_copy))
+    # range objects as index sequences (also starting below zero: positions count from the end, as in a list)
+    for r0 in range(-d, d):
+        for r1 in range(r0, d + 1):
+            for st in (1, 2):
+                rg = range(r0, r1, st)
+                if len(rg) == 0 or any(not (-d <= j < d) for j in rg):
+                    continue
+                ctx.eq('C16/getitem-range', ctx.attempt(lambda: val(A[rg])), ('ok', ([a[j] for j in rg], k)))
+                ctx.eq('C16/getitem-range', ctx.attempt(lambda: val(A[rg])), ctx.attempt(lambda: val(A[list(rg)])))
     if d <= 4:
         for ln in range(1, 4):
             for idx in itertools.product(range(d), repeat=ln):
                 idx = list(idx)
                 ctx.eq('C16/getitem-list', ctx.attempt(lambda: val(A[idx])), ('ok', ([a[j] for j in idx], k)))
+                ctx.eq('C16/getitem-tuple', ctx.attempt(lambda: val(A[tuple(idx)])), ('ok', ([a[j] for j in idx], k)))
                 v = [(a[j] + 1 + t) & m for t, j in enumerate(idx)]
                 na = list(a)
                 for i, b in zip(idx, v):
